@@ -378,7 +378,12 @@ def builtin_method(ex, st, obj, mname, args, kwargs, cx, node, k):
             return cont(st)
         if mname == 'extend':
             o = args[0]
-            on, oat = ex.seq_view(st, o)
+            on, oat0 = ex.seq_view(st, o)
+            oety = o.ty.args[0] if o.ty.kind in ('list', 'seq') and o.ty.args else None
+            if oety is not None and oety != ety and T.sort_of(oety) != T.sort_of(ety):
+                oat = lambda i_: ex.coerce(SV(oety, oat0(i_)), ety, 'list.extend').z      # noqa: E731
+            else:
+                oat = oat0
 
             def cont(s):
                 newa = z3.Lambda([jv], z3.If(jv < n, z3.Select(arr, jv), oat(jv - n)))
